@@ -138,7 +138,7 @@ def main():
             continue
         tech, text, note, ref = CLAIMED[pid]
         if pid in SHADOW:
-            tech += "; every worker then replays a sample of its own queries in shuffled order, twice in a row and without an error slot (metamorphic: a pure function answers the same)"
+            tech += "; every worker then replays a sample of its own queries in shuffled order, twice in a row, without an error slot, with a stale errno and next to sibling questions (one integer argument replaced by -a-1, a+-1, -a) (metamorphic: a pure function answers the same)"
         checks.append(dict(
             property_id=pid,
             quick_cmd="bin/check %s --tier quick" % pid,
